@@ -4,7 +4,10 @@ Engine E over generator-table histories (`rep[g] = M`, re-assignment, inverse-fi
 `Representation` objects against `mc/oracle/rep_model.py`; in every reached state ALL words of
 length <= L over the assigned letters and their inverses are evaluated, on the representation
 itself and on every derived representation, and compared with the oracle functor applied to the
-oracle image.  Engine P: word utilities on all words, and cocycle/coboundary matrices of
+oracle image.  Section histories-reads adds the op ["eval"] between assignments on the same object
+(rep[w] for all short words incl. inverse letters, elements(), conjugate / dual / copy built and
+evaluated): whatever the library remembers from a read must not survive a later assignment; states that
+were read at different moments are not merged.  Engine P: word utilities on all words, and cocycle/coboundary matrices of
 representations with satisfied relations.
 """
 import itertools
